@@ -138,3 +138,40 @@ def check_class_slot(ctx, prog, R):
                   "%s returns free_list_offset[%s] without having established size_ary[%s] == piece size: the free list of one size class is kept in another class's header slot"
                   % (fn.name, k7.expr_str(cj), k7.expr_str(cj)), where=where(fn, b))
     ctx.check(n_eq >= 1 and n_last >= 1, "class-slot", "both-arms", "expected an equality-guarded class arm and a last-slot arm for large sizes (found %d / %d)" % (n_eq, n_last), where=where(fn))
+
+
+def check_large_threshold(ctx, prog, R, rule="large-threshold"):
+    """`is_large` separates the 15 exact classes from the shared first-fit list: a size is large iff it is >= the last
+    entry of the class table.  (A size that *equals* the last entry is on the shared list, although it is "found" in
+    the table.)"""
+    fn = R.need("IS_LARGE")
+    ctx.touch(fn)
+    from .util import tracer, origins
+    cn = k7.Canon(prog, fn)
+
+    def is_size(c):
+        return c[0] == "p" and c[1] == 2 and not c[2]
+
+    def is_last(c, at):
+        if not (c[0] == "p" and c[1] == 1 and len(c[2]) == 2 and c[2][0].endswith(dot(prog, "MGR.sizes")) and c[2][1].startswith("idx:")):
+            return False
+        j = cn.op({"k": "cp", "pl": {"l": int(c[2][1][4:]), "p": []}}, at)
+        return j[0] == "bin" and j[1] == "Sub" and j[3] == ("c", 1) and j[2][0] == "len" and j[2][1][0] == "p" and any(e.endswith(dot(prog, "MGR.sizes")) for e in j[2][1][2])
+    os_ = tracer(prog, fn).place({"l": 0, "p": []})
+    ok = bool(os_)
+    for o in os_:
+        neg = False
+        while o is not None and o.kind == "un" and o.data["op"] == "Not":
+            neg = not neg
+            q = origins(prog, fn, o.data["a"], at=o.block)
+            o = q[0] if len(q) == 1 else None
+        if o is None or o.kind != "bin":
+            ok = False
+            break
+        op, a, b = o.data["op"], cn.op(o.data["a"], o.block), cn.op(o.data["b"], o.block)
+        if neg:
+            op = {"Lt": "Ge", "Gt": "Le", "Ge": "Lt", "Le": "Gt"}.get(op, "?")
+        good = (op == "Ge" and is_size(a) and is_last(b, o.block)) or (op == "Le" and is_last(a, o.block) and is_size(b))
+        ok = ok and good
+    ctx.check(ok, rule, "is_large", "a slot size is not classified as large exactly when it is >= the last entry of the size-class table: "
+              "slots of that size would be popped from / pushed to the wrong kind of free list", where=where(fn))
